@@ -181,3 +181,28 @@ Definition request_spec (c : rcase) : bool :=
   | Some rq => proposal_ok c rq && rc_rq_encodes c && usable_ok c
   | None => false
   end.
+
+(* ---- C10 ------------------------------------------------------------------------------------------ *)
+Record mcase := mkmc {
+  mc_own_r : N; mc_own_a : N;                       (* configured maxima of requestor and acceptor *)
+  mc_ann_r : N; mc_ann_a : N;                       (* what each side announced (Maximum Length sub-item) *)
+  mc_lim_r : N; mc_lim_a : N;                       (* max_pdu_length of each association object afterwards *)
+  mc_sent_r : list (N * N * bool);                  (* requestor sends: (data length, longest P-DATA-TF variable field, complete) *)
+  mc_sent_a : list (N * N * bool);
+}.
+
+Definition max_corr (c : mcase) : bool :=
+  let n := negotiate (mc_own_r c) (mc_own_a c) in
+  (ann_r n =? mc_ann_r c) && (ann_a n =? mc_ann_a c) && (lim_r n =? mc_lim_r c) && (lim_a n =? mc_lim_a c).
+
+Definition leb_inf (a b : N) : bool := (b =? 0) || (negb (a =? 0) && (a <=? b)).   (* a <= b, 0 = infinity *)
+
+Definition max_spec (c : mcase) : bool :=
+  (* each side announces a value it is itself prepared to receive *)
+  leb_inf (mc_ann_r c) (mc_own_r c) && leb_inf (mc_ann_a c) (mc_own_a c)
+  (* neither side sends a P-DATA-TF longer than the peer announced (0 restricts nothing);
+     every message was sent completely, whatever its size *)
+  && forallb (fun s => let '(_, longest, complete) := s in
+                       complete && ((mc_ann_a c =? 0) || (longest <=? mc_ann_a c))) (mc_sent_r c)
+  && forallb (fun s => let '(_, longest, complete) := s in
+                       complete && ((mc_ann_r c =? 0) || (longest <=? mc_ann_r c))) (mc_sent_a c).
